@@ -83,7 +83,9 @@ class Tree:
             if not im or f["sig"]["name"] != name:
                 continue
             st = re.sub(r"<.*", "", _norm(im["self_ty"])).lstrip("&")
-            if not (st == self_ty_suffix or st.endswith("::" + self_ty_suffix)):
+            st = st.replace("crate::", "").replace("super::", "")
+            full = _norm(im.get("mod", "")) + st.rsplit("::", 1)[-1]
+            if not (st == self_ty_suffix or st.endswith("::" + self_ty_suffix) or full == self_ty_suffix or full.endswith("::" + self_ty_suffix)):
                 continue
             if trait is not None:
                 tr = im["trait"] or ""
